@@ -55,6 +55,7 @@ def run(ctx, want_follow=False):
     files = gramjobs.shipped_grammar_files()
     n_synth = 160 if ctx.tier == 'quick' else 2400
     chunk = 10 if ctx.tier == 'quick' else 50
+    ctx.bound('systematic family: all 20640 grammars r0: <EBNF term with <= 3 operators over a, b, r0 (self), r1>; r1: b a | a (complete)')
     ctx.bound('synthetic grammars: %d pseudo-random well-formed EBNF grammars (seed %d), 1-3 rules, <=6 operators '
               'per right-hand side over |,[],(),*,+, terminals NAME NUMBER STRING and three strings; the family is '
               'sampled, the sentence/state/token quantifiers inside each member are the solver\'s' % (n_synth, ctx.seed))
@@ -64,6 +65,9 @@ def run(ctx, want_follow=False):
         tjobs = [(t, ex.submit(gramjobs.job_twin, files[len(files) // 2], t)) for t in gramjobs.TWINS]
         sjobs = [ex.submit(gramjobs.job_synth, ctx.seed, lo, min(lo + chunk, n_synth))
                  for lo in range(0, n_synth, chunk)]
+        n_sys = 20640
+        step = 430
+        yjobs = [(lo, ex.submit(gramjobs.job_synth, ctx.seed, lo, lo + step, True)) for lo in range(0, n_sys, step)]
         for p, j in fjobs:
             out = j.result()
             with open(p) as f:
@@ -89,6 +93,23 @@ def run(ctx, want_follow=False):
                     rej += 1
                 if g['index'] % 37 == 0:
                     ctx.sample({'synthetic': g['text'], 'accepted': g.get('accepted')})
+        # systematic family: every term with <= 3 operators over 'a', 'b', self reference, second rule
+        for lo, j in yjobs:
+            out = j.result()
+            bad = [r for g in out for r in g['results'] if r['verdict'] not in ('holds',)]
+            secs = sum(r['seconds'] for g in out for r in g['results'])
+            nobl = sum(len(g['results']) for g in out)
+            a = sum(1 for g in out if g.get('accepted'))
+            if bad:
+                for g in out:
+                    handle_results(ctx, g['text'], [r for r in g['results'] if r['verdict'] != 'holds'])
+            ctx.add('systematic-family[%d..%d)' % (lo, lo + len(out)), 'z3', HOLDS if not bad else VIOLATED, secs, nonvacuous=nobl > 0,
+                    kind='z3-query-batch', detail='%d grammars "r0: <term, <=3 operators over a, b, r0, r1>; r1: b a | a": %d accepted, %d '
+                    'rejected, %d solver obligations (language equality, LL(1) verdict = accept/raise, tables) all discharged' % (
+                        len(out), a, len(out) - a, nobl),
+                    bound='the complete family of 20640 two-rule grammars; sentences unbounded')
+            if out and lo % 4300 == 0:
+                ctx.sample({'systematic': out[len(out) // 2]['text'], 'accepted': out[len(out) // 2].get('accepted')})
         ctx.notes.append('synthetic grammars: %d accepted as LL(1), %d rejected; both verdicts agreed with the '
                          'specification side in every case listed as holds' % (acc, rej))
         if acc < 5 or rej < 5:
